@@ -38,6 +38,18 @@ class AnalysisError(Exception):
     tracked region, tool failure).  Exit code 2, never a verdict."""
 
 
+def order_index(root: ast.AST) -> Dict[int, int]:
+    """id(node) -> position in a pre-order walk: the order in which the code is written *now* (line numbers do not give it once
+    helpers have been inlined: inlined code carries the line of the call it replaced)"""
+    out: Dict[int, int] = {}
+    stack = [root]
+    while stack:
+        n = stack.pop()
+        out[id(n)] = len(out)
+        stack.extend(reversed(list(ast.iter_child_nodes(n))))
+    return out
+
+
 def acopy(node):
     """copy of an ast subtree (or list of nodes) that does not drag the rest of the module along: only syntax fields and position
     attributes are copied; `parent` links are rebuilt inside the copy and the copy's root keeps the original's parent"""
@@ -348,6 +360,28 @@ class Locals:
             if isinstance(cur, (ast.For, ast.While)):
                 loops_def.append(cur)
         only_use = [l for l in loops_use if l not in loops_def]
+        # positions in the code as it is written now (inlined statements all carry the line of the call they replaced)
+        if not hasattr(self, "_oi"):
+            self._oi = order_index(self.fn)
+        oi = self._oi
+        if id(use) in oi and id(d) in oi:
+            def inside(node, loop):
+                cur_ = node
+                while cur_ is not None and cur_ is not self.fn:
+                    if cur_ is loop:
+                        return True
+                    cur_ = getattr(cur_, "parent", None)
+                return False
+
+            for n in names_in(d.value):
+                for b in self.bindings.get(n, []):
+                    if b is d or id(b) not in oi:
+                        continue
+                    if oi[id(d)] < oi[id(b)] <= oi[id(use)]:
+                        return False
+                    if any(inside(b, l) for l in only_use):
+                        return False
+            return oi[id(d)] < oi[id(use)] or bool(loops_def)
         for n in names_in(d.value):
             for b in self.bindings.get(n, []):
                 if b is d:
@@ -478,11 +512,38 @@ class Repo:
         for need in MODULE_NAMES:
             if need not in self.modules and need != "test_factories":
                 raise AnalysisError(f"module eyecite/{need}.py is missing")
+        # additions around the reference code (hoisted constants, operator/compiled objects, default-only parameters, local aliases) are
+        # folded back (sa/normalize.py)
+        self.normalise_log = []
+        if not os.environ.get("SA_NO_NORMALISE"):
+            from .normalize import normalise
+            from .canon import canonicalise as _canon
+
+            self.normalise_log = normalise({n: m.tree for n, m in self.modules.items()})
+            if self.normalise_log:
+                for m in self.modules.values():
+                    if not os.environ.get("SA_NO_CANON"):
+                        _canon(m.tree)
+                    set_parents(m.tree)
+                    m.imports = {}
+                    for n in ast.walk(m.tree):
+                        if isinstance(n, ast.ImportFrom) and n.module:
+                            for a in n.names:
+                                m.imports[a.asname or a.name] = f"{n.module}.{a.name}"
+                        elif isinstance(n, ast.Import):
+                            for a in n.names:
+                                m.imports[a.asname or a.name.split(".")[0]] = a.name
         # helpers that are not functions of the reference tree are inlined back into their callers (sa/inline.py)
         from .inline import inline_extras
 
         self.inline_log = inline_extras({n: m.tree for n, m in self.modules.items()}, self.root)
-        if self.inline_log:
+        post_log = []
+        if not os.environ.get("SA_NO_NORMALISE"):
+            from .normalize import post_inline
+
+            post_log = post_inline({n: m.tree for n, m in self.modules.items()})
+            self.normalise_log += post_log
+        if self.inline_log or post_log:
             from .canon import canonicalise
 
             for m in self.modules.values():
